@@ -170,6 +170,49 @@ func certZoo() []ZooCert {
 			issueT("extension", fmt.Sprintf("%s-%v", strings.ReplaceAll(h.why, " ", "_"), crit), t)
 		}
 	}
+	// (4b) Tor service descriptors (CA/B Forum 2.23.140.1.31): well-formed hashes with onion URIs of many shapes, and
+	// odd hash sizes / algorithms with a good URI
+	{
+		sha := map[string][]byte{"sha256": {0x60, 0x86, 0x48, 0x01, 0x65, 0x03, 0x04, 0x02, 0x01}, "sha384": {0x60, 0x86, 0x48, 0x01, 0x65, 0x03, 0x04, 0x02, 0x02},
+			"sha512": {0x60, 0x86, 0x48, 0x01, 0x65, 0x03, 0x04, 0x02, 0x03}, "sha1": {0x2b, 0x0e, 0x03, 0x02, 0x1a}}
+		bits := map[string]int{"sha256": 256, "sha384": 384, "sha512": 512, "sha1": 160}
+		mk := func(uri string, alg string, nbits int, withParams bool) []byte {
+			algID := encTLV(0x06, sha[alg])
+			if withParams {
+				algID = concat(algID, []byte{0x05, 0x00})
+			}
+			hash := make([]byte, nbits/8)
+			for i := range hash {
+				hash[i] = byte(i + 1)
+			}
+			one := encTLV(0x30, concat(encTLV(0x0c, []byte(uri)), encTLV(0x30, algID), encTLV(0x03, append([]byte{0}, hash...))))
+			return encTLV(0x30, one)
+		}
+		good := "https://zmapzmapzmapzmap.onion"
+		uris := []string{good, " " + good, good + "\n", good + " ", "\t" + good, "http://zmapzmapzmapzmap.onion", "https://", "https:///path", "", ":", "%zz", "https://user@zmapzmapzmapzmap.onion",
+			"https://zmapzmapzmapzmap.onion:443/x?y#z", "HTTPS://ZMAPZMAPZMAPZMAP.ONION", "https://[::1]/", "zmapzmapzmapzmap.onion", "https://zmapzmapzmapzmap.onion\x00", "https://exa mple.onion", "//zmapzmapzmapzmap.onion",
+			"https://" + strings.Repeat("a", 56) + ".onion", "\nhttps://zmapzmapzmapzmap.onion\n"}
+		for i, u := range uris {
+			t := leafTemplate()
+			t.DNSNames = []string{"zmapzmapzmapzmap.onion"}
+			t.Subject.CommonName = "zmapzmapzmapzmap.onion"
+			t.PolicyIdentifiers = []asn1.ObjectIdentifier{{2, 23, 140, 1, 1}}
+			t.ExtraExtensions = append(t.ExtraExtensions, pkix.Extension{Id: asn1.ObjectIdentifier{2, 23, 140, 1, 31}, Value: mk(u, "sha256", 256, i%2 == 0)})
+			issueT("tor", fmt.Sprintf("uri-%d", i), t)
+		}
+		j := 0
+		for alg, nb := range bits {
+			for _, d := range []int{0, -8, 8} {
+				j++
+				t := leafTemplate()
+				t.DNSNames = []string{"zmapzmapzmapzmap.onion"}
+				t.PolicyIdentifiers = []asn1.ObjectIdentifier{{2, 23, 140, 1, 1}}
+				t.ExtraExtensions = append(t.ExtraExtensions, pkix.Extension{Id: asn1.ObjectIdentifier{2, 23, 140, 1, 31}, Value: mk(good, alg, nb+d, false)})
+				issueT("tor", fmt.Sprintf("hash-%s-%d", alg, nb+d), t)
+			}
+		}
+		_ = j
+	}
 	// (5) names: every pool name alone (SAN, and as common name), related-name groups, many SANs
 	for i, n := range namePool {
 		for _, inCN := range []bool{false, true} {
